@@ -75,6 +75,7 @@ static void ctx_install(secp256k1_context *c) {
 #define MAXTOK 4096
 static TLS char *g_tok[MAXTOK];
 static TLS int g_ntok;
+static TLS int g_alias;     /* trailing token "!alias": the op passes its output pointer equal to one of its inputs (in-place use) */
 static TLS void *g_tmp[MAXTOK * 2];
 static TLS int g_ntmp;
 static TLS char *g_out; static TLS size_t g_outlen, g_outcap;
@@ -183,6 +184,8 @@ static void vshim_exec_line(char *line, int use_static) {
         while (*p && *p != ' ' && *p != '\t' && *p != '\n' && *p != '\r') p++;
     }
     if (g_ntok == 0) { reply("ERR empty%s", "", 0, 0, 0, 0); return; }
+    g_alias = 0;
+    if (g_ntok > 1 && strcmp(g_tok[g_ntok - 1], "!alias") == 0) { g_alias = 1; g_ntok--; }
     ctx = g_ctx[0];
     if (g_tok[0][0] == '@') {
         int k = atoi(g_tok[0] + 1);
